@@ -268,6 +268,9 @@ class ZMQEventLoop(EventLoop):
                 self._entering_idle()
                 self._did_something = False
             elif state == "alarm":
+                if (remaining := self._alarms[0][0] - time.time()) > 0:
+                    # poll() returns at once when nothing is registered, and truncates its timeout to milliseconds
+                    time.sleep(remaining)
                 _due, _tie_break, callback = heapq.heappop(self._alarms)
                 callback()
                 self._did_something = True
